@@ -1,7 +1,7 @@
 (* Lemmas about the store slice of Sys/Files.v: invariants over all histories,
    exactness of garbage collection, links kept while the parent exists. *)
 From Coq Require Import NArith ZArith List Bool Lia.
-From Tinode Require Import Pure.Url Sys.Files.
+From Tinode Require Import Pure.Url Sys.Files Sys.FilesGateProofs.
 Import ListNotations.
 
 (* ---- list helpers ---- *)
@@ -120,6 +120,54 @@ Proof.
   apply find_file_in in E. destruct E as [Hin Hid]. subst. apply in_map. exact Hin.
 Qed.
 
+Lemma find_file_filter_none : forall (p : N -> bool) (l : list file) (f : N),
+  p f = false -> find_file f (filter (fun g => p (f_id g)) l) = None.
+Proof.
+  intros p l f Hp. unfold find_file. induction l as [|g l IH]; [reflexivity|].
+  cbn [filter]. destruct (p (f_id g)) eqn:Eg; [|exact IH].
+  cbn [find]. destruct (f_id g =? f)%N eqn:Ef; [|exact IH].
+  apply N.eqb_eq in Ef. subst. congruence.
+Qed.
+
+Lemma is_done_filter : forall (p : N -> bool) (l : list file) (f : N),
+  is_done f (filter (fun g => p (f_id g)) l) = true -> p f = true /\ is_done f l = true.
+Proof.
+  intros p l f H. unfold is_done in *. destruct (p f) eqn:Ep.
+  - rewrite (find_file_filter p l f Ep) in H. split; [reflexivity|exact H].
+  - rewrite (find_file_filter_none p l f Ep) in H. discriminate.
+Qed.
+
+Lemma is_done_snoc_inv : forall l g f,
+  f_done g = false -> is_done f (l ++ [g]) = true -> is_done f l = true.
+Proof.
+  intros l g f Hg. unfold is_done, find_file. induction l as [|x l IH]; intros H.
+  - cbn [app find] in H. destruct (f_id g =? f)%N; [congruence|discriminate].
+  - cbn [app find] in *. destruct (f_id x =? f)%N; [exact H|apply IH; exact H].
+Qed.
+
+Lemma is_done_finish_inv : forall l fid now f,
+  is_done f (map (fun g => if (f_id g =? fid)%N
+                           then {| f_id := fid; f_done := true; f_upd := now; f_mime := f_mime g |}
+                           else g) l) = true ->
+  f = fid \/ is_done f l = true.
+Proof.
+  intros l fid now f. unfold is_done, find_file. induction l as [|g l IH]; intros H; [discriminate|].
+  cbn [map find] in *.
+  destruct (f_id g =? fid)%N eqn:Eg.
+  - cbn [f_id] in H. apply N.eqb_eq in Eg.
+    destruct (fid =? f)%N eqn:Ef.
+    + left. apply N.eqb_eq in Ef. congruence.
+    + rewrite Eg, Ef. apply IH. exact H.
+  - destruct (f_id g =? f)%N; [right; exact H|apply IH; exact H].
+Qed.
+
+Lemma filter_all : forall (A : Type) (p : A -> bool) (l : list A),
+  (forall x, In x l -> p x = true) -> filter p l = l.
+Proof.
+  induction l as [|a l IH]; intros H; [reflexivity|]. cbn [filter].
+  rewrite (H a (or_introl eq_refl)). f_equal. apply IH. intros x Hx. apply H. right. exact Hx.
+Qed.
+
 (* ---- link_single does not touch files, disk, msgs, topics, users ---- *)
 Lemma link_single_files : forall s tg fids, files (link_single s tg fids) = files s.
 Proof. intros s tg [|f r]; [reflexivity|]. unfold link_single. destruct (_ && _); reflexivity. Qed.
@@ -166,7 +214,11 @@ Qed.
 (* invariants                                                           *)
 
 Definition inv_ids (s : state) : Prop := NoDup (file_ids s).
-Definition inv_disk (s : state) : Prop := forall d, In d (disk s) <-> In d (file_ids s).
+(* stored bytes belong to upload records; every completed upload has its bytes (a record in
+   status 'started' may have lost them: failed FinishUpload) *)
+Definition inv_disk (s : state) : Prop :=
+  (forall d, In d (disk s) -> In d (file_ids s)) /\
+  (forall f, is_done f (files s) = true -> In f (disk s)).
 Definition inv_msgs (s : state) : Prop :=
   NoDup (map fst (msgs s)) /\ forall m, In m (map fst (msgs s)) -> (m < next_mid s)%N.
 Definition inv_links (s : state) : Prop :=
@@ -183,7 +235,7 @@ Proof.
     apply orb_false_iff in E. destruct E as [E _]. apply memN_false in E. exact E.
   - destruct (find_file fid (files s)) as [f|]; [|exact H].
     destruct (f_done f); [exact H|]. destruct ok.
-    + unfold set_files. cbn [files]. rewrite ids_finish. exact H.
+    + destruct (memN fid (disk s)); [|exact H]. unfold set_files. cbn [files]. rewrite ids_finish. exact H.
     + cbn [files]. apply NoDup_map_filter. exact H.
   - destruct (memN t (topics s)); exact H.
   - destruct (memN u (users s)); exact H.
@@ -194,41 +246,58 @@ Proof.
   - exact H.
   - exact H.
   - cbn [files]. apply NoDup_map_filter. exact H.
+  - destruct (is_done fid (files s)); exact H.
 Qed.
 
 Lemma step_inv_disk : forall s o, inv_disk s -> inv_disk (step s o).
 Proof.
-  intros s o H. unfold inv_disk, file_ids in *.
+  intros s o [Ha Hb]. unfold inv_disk, file_ids in *.
   destruct o; cbn [step].
-  - destruct (memN fid (file_ids s) || (fid =? 0)%N); [exact H|].
-    cbn [files disk]. intros d. rewrite map_app, in_app_iff. cbn [map f_id In].
-    rewrite <- H. tauto.
-  - destruct (find_file fid (files s)) as [f|]; [|exact H].
-    destruct (f_done f); [exact H|]. destruct ok.
-    + unfold set_files. cbn [files disk]. rewrite ids_finish. exact H.
-    + cbn [files disk]. intros d.
-      rewrite (in_map_filter file f_id (fun x => negb (x =? fid)%N)).
-      rewrite filter_In. rewrite H. tauto.
-  - destruct (memN t (topics s)); exact H.
-  - destruct (memN u (users s)); exact H.
-  - destruct (memN topic (topics s)); exact H.
-  - rewrite link_single_files, link_single_disk. exact H.
-  - rewrite link_single_files, link_single_disk. exact H.
-  - exact H.
-  - exact H.
-  - exact H.
-  - cbn [files disk]. intros d.
-    rewrite (in_map_filter file f_id (fun x => negb (memN x (map f_id (gc_removed s older limit))))).
-    rewrite filter_In. rewrite H. tauto.
+  - destruct (memN fid (file_ids s) || (fid =? 0)%N); [split; assumption|].
+    cbn [files disk]. split.
+    + intros d Hd. rewrite map_app, in_app_iff. cbn [map f_id In].
+      destruct Hd as [Hd|Hd]; [right; left; exact Hd|left; apply Ha; exact Hd].
+    + intros f Hf. right. apply Hb. eapply is_done_snoc_inv; [|exact Hf]. reflexivity.
+  - destruct (find_file fid (files s)) as [f|]; [|split; assumption].
+    destruct (f_done f); [split; assumption|]. destruct ok.
+    + destruct (memN fid (disk s)) eqn:Ed; [|split; assumption].
+      unfold set_files. cbn [files disk]. rewrite ids_finish. split; [exact Ha|].
+      intros f0 Hf0. apply is_done_finish_inv in Hf0. destruct Hf0 as [Hf0|Hf0].
+      * subst f0. apply memN_In. exact Ed.
+      * apply Hb. exact Hf0.
+    + cbn [files disk]. split.
+      * intros d Hd. apply filter_In in Hd. destruct Hd as [Hd Hne].
+        apply (in_map_filter file f_id (fun x => negb (x =? fid)%N)). split; [apply Ha; exact Hd|exact Hne].
+      * intros f0 Hf0. apply (is_done_filter (fun x => negb (x =? fid)%N)) in Hf0. destruct Hf0 as [Hne Hf0].
+        apply filter_In. split; [apply Hb; exact Hf0|exact Hne].
+  - destruct (memN t (topics s)); split; assumption.
+  - destruct (memN u (users s)); split; assumption.
+  - destruct (memN topic (topics s)); split; assumption.
+  - rewrite link_single_files, link_single_disk. split; assumption.
+  - rewrite link_single_files, link_single_disk. split; assumption.
+  - split; assumption.
+  - split; assumption.
+  - split; assumption.
+  - cbn [files disk]. split.
+    + intros d Hd. apply filter_In in Hd. destruct Hd as [Hd Hne].
+      apply (in_map_filter file f_id (fun x => negb (memN x (map f_id (gc_removed s older limit))))).
+      split; [apply Ha; exact Hd|exact Hne].
+    + intros f0 Hf0.
+      apply (is_done_filter (fun x => negb (memN x (map f_id (gc_removed s older limit))))) in Hf0.
+      destruct Hf0 as [Hne Hf0]. apply filter_In. split; [apply Hb; exact Hf0|exact Hne].
+  - destruct (is_done fid (files s)) eqn:Ed; [split; assumption|]. cbn [files disk]. split.
+    + intros d Hd. apply filter_In in Hd. apply Ha. tauto.
+    + intros f0 Hf0. apply filter_In. split; [apply Hb; exact Hf0|].
+      apply negb_true_iff. apply N.eqb_neq. intros ->. congruence.
 Qed.
 
 Lemma step_next_mid_mono : forall s o, (next_mid s <= next_mid (step s o))%N.
 Proof.
   intros s o. destruct o; cbn [step];
   [ destruct (_ || _)
-  | destruct (find_file fid (files s)) as [f|]; [destruct (f_done f); [|destruct ok]|]
+  | destruct (find_file fid (files s)) as [f|]; [destruct (f_done f); [|destruct ok; [destruct (memN fid (disk s))|]]|]
   | destruct (memN t (topics s)) | destruct (memN u (users s)) | destruct (memN topic (topics s))
-  | rewrite link_single_next | rewrite link_single_next | | | | ];
+  | rewrite link_single_next | rewrite link_single_next | | | | | destruct (is_done fid (files s)) ];
   cbn [next_mid set_files]; lia.
 Qed.
 
@@ -238,7 +307,8 @@ Proof.
   destruct o; cbn [step].
   - destruct (_ || _); cbn [msgs next_mid]; split; assumption.
   - destruct (find_file fid (files s)) as [f|]; [|split; assumption].
-    destruct (f_done f); [split; assumption|]. destruct ok; cbn [msgs next_mid set_files]; split; assumption.
+    destruct (f_done f); [split; assumption|].
+    destruct ok; [destruct (memN fid (disk s))|]; cbn [msgs next_mid set_files]; split; assumption.
   - destruct (memN t (topics s)); cbn [msgs next_mid]; split; assumption.
   - destruct (memN u (users s)); cbn [msgs next_mid]; split; assumption.
   - destruct (memN topic (topics s)); [|split; assumption].
@@ -255,6 +325,7 @@ Proof.
     apply filter_In in Hin. destruct Hin as [Hin _]. apply in_map_iff. exists x. split; assumption.
   - cbn [msgs next_mid]. split; assumption.
   - cbn [msgs next_mid]. split; assumption.
+  - destruct (is_done fid (files s)); cbn [msgs next_mid]; split; assumption.
 Qed.
 
 (* ---- links point to existing records and existing parents ---- *)
@@ -300,7 +371,8 @@ Proof.
   - (* OFinish *)
     destruct (find_file fid (files s)) as [g|]; [|exact H].
     destruct (f_done g); [exact H|]. destruct ok.
-    + intros f t Hin. unfold set_files in *. cbn [links] in Hin. destruct (H f t Hin) as [H1 H2].
+    + destruct (memN fid (disk s)); [|exact H].
+      intros f t Hin. unfold set_files in *. cbn [links] in Hin. destruct (H f t Hin) as [H1 H2].
       unfold file_ids. cbn [files]. rewrite ids_finish. split; [exact H1|].
       live_same. exact H2.
     + intros f t Hin. cbn [links] in Hin. apply filter_In in Hin. destruct Hin as [Hin Hne].
@@ -362,6 +434,8 @@ Proof.
     + apply (in_map_filter file f_id (fun x => negb (memN x (map f_id (gc_removed s older limit))))).
       split; [exact H1|]. rewrite (linked_not_removed s older limit f tg Hin). reflexivity.
     + live_same. exact H2.
+  - (* ODropBytes *)
+    destruct (is_done fid (files s)); exact H.
 Qed.
 
 (* ---- accepted attachments of completed uploads stay linked ---- *)
@@ -393,7 +467,8 @@ Proof.
     destruct (H f t Hin) as [H1 H2]. split; [exact H1|apply is_done_app; exact H2].
   - destruct (find_file fid (files s)) as [g|] eqn:Eg; [|exact H].
     destruct (f_done g) eqn:Edg; [exact H|]. destruct ok.
-    + intros f t Hin. unfold set_files in *. cbn [att links files] in *.
+    + destruct (memN fid (disk s)); [|exact H].
+      intros f t Hin. unfold set_files in *. cbn [att links files] in *.
       destruct (H f t Hin) as [H1 H2]. split; [exact H1|apply is_done_finish; exact H2].
     + intros f t Hin. cbn [att links files] in *. destruct (H f t Hin) as [H1 H2].
       assert (Hne : negb (f =? fid)%N = true).
@@ -423,6 +498,7 @@ Proof.
     rewrite (find_file_filter (fun x => negb (memN x (map f_id (gc_removed s older limit)))) (files s) f).
     + exact H2.
     + rewrite (linked_not_removed s older limit f tg H1). reflexivity.
+  - destruct (is_done fid (files s)); exact H.
 Qed.
 
 (* ---- every history ---- *)
@@ -432,7 +508,7 @@ Definition inv (s : state) : Prop :=
 Lemma inv_init : inv init.
 Proof.
   unfold inv, inv_ids, inv_disk, inv_msgs, inv_links, inv_att, init, file_ids. cbn.
-  repeat split; try constructor; try tauto; intros; contradiction.
+  repeat split; try constructor; try tauto; intros; try contradiction; discriminate.
 Qed.
 
 Lemma inv_step : forall s o, inv s -> inv (step s o).
@@ -526,7 +602,7 @@ Proof.
   destruct o; cbn [step] in H.
   - destruct (_ || _); exact H.
   - destruct (find_file fid (files s)) as [g|]; [|exact H].
-    destruct (f_done g); [exact H|]. destruct ok; exact H.
+    destruct (f_done g); [exact H|]. destruct ok; [destruct (memN fid (disk s))|]; exact H.
   - destruct (memN t (topics s)); exact H.
   - destruct (memN u (users s)); exact H.
   - destruct (memN topic (topics s)); [|exact H]. cbn [msgs map fst] in H.
@@ -542,6 +618,7 @@ Proof.
     apply in_map_iff. exists x. tauto.
   - exact H.
   - exact H.
+  - destruct (is_done fid (files s)); exact H.
 Qed.
 
 Lemma live_back_run : forall h s m,
@@ -575,7 +652,7 @@ Proof.
   destruct o; cbn [step] in *.
   - destruct (_ || _); exact Hin.
   - destruct (find_file fid (files s)) as [g|]; [|exact Hin].
-    destruct (f_done g); [exact Hin|]. destruct ok; exact Hin.
+    destruct (f_done g); [exact Hin|]. destruct ok; [destruct (memN fid (disk s))|]; exact Hin.
   - destruct (memN t (topics s)); exact Hin.
   - destruct (memN u (users s)); exact Hin.
   - destruct (memN topic (topics s)); [|exact Hin]. cbn [att]. apply in_app_iff. left. exact Hin.
@@ -596,6 +673,7 @@ Proof.
     subst y'. apply negb_true_iff in Hyt. exact Hyt.
   - cbn [att]. apply drop_keep; [reflexivity|exact Hin].
   - exact Hin.
+  - destruct (is_done fid (files s)); exact Hin.
 Qed.
 
 Lemma msg_link_persists : forall h s f m,
@@ -615,7 +693,7 @@ Lemma att_stored : forall s f t, inv s -> In (f, t) (att s) ->
 Proof.
   intros s f t [_ [Hdisk [_ [Hlinks Hatt]]]] Hin.
   destruct (Hatt f t Hin) as [H1 H2]. destruct (Hlinks f t H1) as [H3 _].
-  split; [exact H1|]. split; [exact H3|]. split; [apply Hdisk; exact H3|exact H2].
+  split; [exact H1|]. split; [exact H3|]. split; [apply (proj2 Hdisk); exact H2|exact H2].
 Qed.
 
 Lemma publish_att : forall s topic fids f,
@@ -668,7 +746,7 @@ Proof.
   destruct o; cbn [step].
   - destruct (_ || _); exact Hin.
   - destruct (find_file fid (files s)) as [g|]; [|exact Hin].
-    destruct (f_done g); [exact Hin|]. destruct ok; exact Hin.
+    destruct (f_done g); [exact Hin|]. destruct ok; [destruct (memN fid (disk s))|]; exact Hin.
   - destruct (memN t (topics s)); exact Hin.
   - destruct (memN u (users s)); exact Hin.
   - destruct (memN topic (topics s)); [|exact Hin]. cbn [att]. apply in_app_iff. left. exact Hin.
@@ -686,6 +764,7 @@ Proof.
     destruct tg as [m|x|x]; cbn [avatar_kept] in *; [destruct Htg|reflexivity|].
     apply negb_true_iff in Hk. rewrite N.eqb_sym. exact Hk.
   - exact Hin.
+  - destruct (is_done fid (files s)); exact Hin.
 Qed.
 
 Lemma avatar_persists_run : forall h s f tg,
@@ -728,14 +807,488 @@ Lemma avatar_missing_keeps : forall s tg f rest,
 Proof. intros s tg f rest H. unfold link_single. rewrite H. reflexivity. Qed.
 
 (* ---- download ---- *)
+Lemma download_with_names_record : forall chk s serve url f,
+  download_with chk s serve url = Some f ->
+  get_id_from_url serve url = f_id f /\ f_id f <> 0%N /\ In f (files s) /\ In (f_id f) (disk s) /\
+  (chk = true -> f_done f = true).
+Proof.
+  intros chk s serve url f H. unfold download_with in H.
+  destruct (get_id_from_url serve url =? 0)%N eqn:Ez; [discriminate|].
+  destruct (find_file (get_id_from_url serve url) (files s)) as [g|] eqn:Eg; [|discriminate].
+  destruct ((negb chk || f_done g) && memN (get_id_from_url serve url) (disk s)) eqn:Ed; [|discriminate].
+  apply andb_true_iff in Ed. destruct Ed as [Ec Ed].
+  inversion H; subst g. apply find_file_in in Eg. destruct Eg as [Hin Hid].
+  apply N.eqb_neq in Ez. apply memN_In in Ed. rewrite Hid in *.
+  repeat split; try assumption. intros ->. exact Ec.
+Qed.
+
 Lemma download_names_record : forall s serve url f,
   download s serve url = Some f ->
   get_id_from_url serve url = f_id f /\ f_id f <> 0%N /\ In f (files s) /\ In (f_id f) (disk s).
 Proof.
-  intros s serve url f H. unfold download in H.
-  destruct (get_id_from_url serve url =? 0)%N eqn:Ez; [discriminate|].
+  intros s serve url f H. destruct (download_with_names_record true s serve url f H) as [H1 [H2 [H3 [H4 _]]]].
+  repeat split; assumption.
+Qed.
+
+(* every URL, every state of the store slice: what a download serves is a COMPLETED upload *)
+Lemma download_completed : forall s serve url f,
+  download s serve url = Some f ->
+  f_done f = true /\ is_done (f_id f) (files s) = true /\
+  get_id_from_url serve url = f_id f /\ f_id f <> 0%N /\ In f (files s) /\ In (f_id f) (disk s).
+Proof.
+  intros s serve url f H.
+  assert (H' := H). unfold download, download_with in H'.
+  destruct (get_id_from_url serve url =? 0)%N; [discriminate|].
   destruct (find_file (get_id_from_url serve url) (files s)) as [g|] eqn:Eg; [|discriminate].
-  destruct (memN (get_id_from_url serve url) (disk s)) eqn:Ed; [|discriminate].
-  inversion H; subst g. apply find_file_in in Eg. destruct Eg as [Hin Hid].
-  apply N.eqb_neq in Ez. apply memN_In in Ed. rewrite Hid in *. repeat split; assumption.
+  destruct ((negb true || f_done g) && _) eqn:Ed; [|discriminate]. inversion H'; subst g.
+  destruct (download_with_names_record true s serve url f H) as [H1 [H2 [H3 [H4 H5]]]].
+  split; [exact (H5 eq_refl)|]. split; [|repeat split; assumption].
+  unfold is_done. rewrite <- H1, Eg. exact (H5 eq_refl).
+Qed.
+
+(* a record that is not completed is invisible to every URL *)
+Lemma download_started_none : forall s serve url,
+  is_done (get_id_from_url serve url) (files s) = false -> download s serve url = None.
+Proof.
+  intros s serve url H. destruct (download s serve url) as [f|] eqn:E; [|reflexivity].
+  destruct (download_completed s serve url f E) as [_ [Hd [Hid _]]]. rewrite <- Hid in Hd. congruence.
+Qed.
+
+(* ---- provenance of records: every record was started by an upload with its content type,
+   every completed record was finished successfully ---- *)
+Lemma step_file_origin : forall s o f,
+  In f (files (step s o)) ->
+  In f (files s) \/
+  (o = OStart (f_id f) (f_upd f) (f_mime f) /\ f_done f = false) \/
+  (o = OFinish (f_id f) true (f_upd f) /\ f_done f = true /\
+   exists g, In g (files s) /\ f_id g = f_id f /\ f_mime g = f_mime f).
+Proof.
+  intros s o f H. destruct o; cbn [step] in H.
+  - destruct (_ || _); [left; exact H|]. cbn [files] in H. apply in_app_iff in H.
+    destruct H as [H|[H|[]]]; [left; exact H|]. subst f. right. left. split; reflexivity.
+  - destruct (find_file fid (files s)) as [g|] eqn:Eg; [|left; exact H].
+    destruct (f_done g) eqn:Edg; [left; exact H|]. destruct ok.
+    + destruct (memN fid (disk s)); [|left; exact H].
+      unfold set_files in H. cbn [files] in H. apply in_map_iff in H. destruct H as [x [Hx Hin]].
+      destruct (f_id x =? fid)%N eqn:Ex; [|left; subst; exact Hin].
+      apply N.eqb_eq in Ex. right. right. subst f. cbn [f_id f_upd f_mime f_done].
+      split; [reflexivity|]. split; [reflexivity|]. exists x.
+      split; [exact Hin|]. split; [exact Ex|reflexivity].
+    + cbn [files] in H. apply filter_In in H. left. tauto.
+  - destruct (memN t (topics s)); left; exact H.
+  - destruct (memN u (users s)); left; exact H.
+  - destruct (memN topic (topics s)); left; exact H.
+  - rewrite link_single_files in H. left; exact H.
+  - rewrite link_single_files in H. left; exact H.
+  - left; exact H.
+  - left; exact H.
+  - left; exact H.
+  - cbn [files] in H. apply filter_In in H. left. tauto.
+  - destruct (is_done fid (files s)); left; exact H.
+Qed.
+
+Lemma file_provenance : forall h f,
+  In f (files (run h)) ->
+  (exists t0, In (OStart (f_id f) t0 (f_mime f)) h) /\
+  (f_done f = true -> In (OFinish (f_id f) true (f_upd f)) h).
+Proof.
+  induction h as [|o h IH] using rev_ind; intros f Hin; [destruct Hin|].
+  rewrite run_app in Hin. cbn [run_from fold_left] in Hin.
+  destruct (step_file_origin _ _ _ Hin) as [H|[[Ho Hd]|[Ho [Hd [g [Hg [Hid Hm]]]]]]].
+  - destruct (IH f H) as [[t0 H1] H2]. split.
+    + exists t0. apply in_app_iff. left. exact H1.
+    + intros Hd. apply in_app_iff. left. exact (H2 Hd).
+  - split.
+    + exists (f_upd f). apply in_app_iff. right. left. exact Ho.
+    + intros Hd'. congruence.
+  - destruct (IH g Hg) as [[t0 H1] _]. rewrite Hid, Hm in H1. split.
+    + exists t0. apply in_app_iff. left. exact H1.
+    + intros _. apply in_app_iff. right. left. exact Ho.
+Qed.
+
+(* ---- nothing else is removed ---- *)
+Lemma record_removed_only_by : forall s o f,
+  inv_ids s -> In f (files s) -> ~ In (f_id f) (file_ids (step s o)) ->
+  (exists older limit, o = OGC older limit /\ In f (gc_removed s older limit)) \/
+  (exists now, o = OFinish (f_id f) false now /\ f_done f = false).
+Proof.
+  intros s o f Hnd Hin Hgone. unfold file_ids in Hgone.
+  assert (Hid : In (f_id f) (map f_id (files s))) by (apply in_map; exact Hin).
+  destruct o; cbn [step] in Hgone.
+  - exfalso. apply Hgone. destruct (_ || _); [exact Hid|].
+    cbn [files]. rewrite map_app. apply in_app_iff. left. exact Hid.
+  - destruct (find_file fid (files s)) as [g|] eqn:Eg; [|contradiction].
+    destruct (f_done g) eqn:Edg; [contradiction|]. destruct ok.
+    + exfalso. apply Hgone. destruct (memN fid (disk s)); [|exact Hid].
+      unfold set_files. cbn [files]. rewrite ids_finish. exact Hid.
+    + cbn [files] in Hgone. right. exists now.
+      destruct (f_id f =? fid)%N eqn:Ef.
+      * apply N.eqb_eq in Ef. subst fid. split; [reflexivity|].
+        apply find_file_in in Eg. destruct Eg as [Hg Hgid].
+        assert (g = f) by (apply (NoDup_map_inj file N f_id (files s)); assumption).
+        subst g. exact Edg.
+      * exfalso. apply Hgone. apply in_map. apply filter_In. split; [exact Hin|]. rewrite Ef. reflexivity.
+  - exfalso. apply Hgone. destruct (memN t (topics s)); exact Hid.
+  - exfalso. apply Hgone. destruct (memN u (users s)); exact Hid.
+  - exfalso. apply Hgone. destruct (memN topic (topics s)); exact Hid.
+  - exfalso. apply Hgone. rewrite link_single_files. exact Hid.
+  - exfalso. apply Hgone. rewrite link_single_files. exact Hid.
+  - contradiction.
+  - contradiction.
+  - contradiction.
+  - left. exists older, limit. split; [reflexivity|]. cbn [files] in Hgone.
+    destruct (memN (f_id f) (map f_id (gc_removed s older limit))) eqn:Em.
+    + apply memN_In in Em. apply in_map_iff in Em. destruct Em as [g [Hg Hgin]].
+      assert (g = f).
+      { apply (NoDup_map_inj file N f_id (files s)); try assumption.
+        apply (gc_removed_sub s older limit g Hgin). }
+      subst g. exact Hgin.
+    + exfalso. apply Hgone. apply in_map. apply filter_In. split; [exact Hin|]. rewrite Em. reflexivity.
+  - exfalso. apply Hgone. destruct (is_done fid (files s)); exact Hid.
+Qed.
+
+Lemma bytes_removed_only_by : forall s o d,
+  In d (disk s) -> ~ In d (disk (step s o)) ->
+  (exists older limit, o = OGC older limit /\ In d (gc_deleted_locations s older limit)) \/
+  (exists now, o = OFinish d false now /\ is_done d (files s) = false) \/
+  (o = ODropBytes d /\ is_done d (files s) = false).
+Proof.
+  intros s o d Hin Hgone. destruct o; cbn [step] in Hgone.
+  - exfalso. apply Hgone. destruct (_ || _); [exact Hin|]. right. exact Hin.
+  - destruct (find_file fid (files s)) as [g|] eqn:Eg; [|contradiction].
+    destruct (f_done g) eqn:Edg; [contradiction|]. destruct ok.
+    + exfalso. apply Hgone. destruct (memN fid (disk s)); exact Hin.
+    + cbn [disk] in Hgone. right. left. exists now.
+      destruct (d =? fid)%N eqn:Ef.
+      * apply N.eqb_eq in Ef. subst fid. split; [reflexivity|]. unfold is_done. rewrite Eg. exact Edg.
+      * exfalso. apply Hgone. apply filter_In. split; [exact Hin|]. rewrite Ef. reflexivity.
+  - exfalso. apply Hgone. destruct (memN t (topics s)); exact Hin.
+  - exfalso. apply Hgone. destruct (memN u (users s)); exact Hin.
+  - exfalso. apply Hgone. destruct (memN topic (topics s)); exact Hin.
+  - exfalso. apply Hgone. rewrite link_single_disk. exact Hin.
+  - exfalso. apply Hgone. rewrite link_single_disk. exact Hin.
+  - contradiction.
+  - contradiction.
+  - contradiction.
+  - left. exists older, limit. split; [reflexivity|]. cbn [disk] in Hgone. unfold gc_deleted_locations.
+    destruct (memN d (map f_id (gc_removed s older limit))) eqn:Em; [apply memN_In; exact Em|].
+    exfalso. apply Hgone. apply filter_In. split; [exact Hin|]. rewrite Em. reflexivity.
+  - right. right. destruct (is_done fid (files s)) eqn:Ed; [contradiction|]. cbn [disk] in Hgone.
+    destruct (d =? fid)%N eqn:Ef.
+    + apply N.eqb_eq in Ef. subst fid. split; [reflexivity|exact Ed].
+    + exfalso. apply Hgone. apply filter_In. split; [exact Hin|]. rewrite Ef. reflexivity.
+Qed.
+
+(* ---- deleting a message / topic / user removes its link rows ---- *)
+Lemma del_msgs_unlinks : forall s mids f m,
+  In m mids -> ~ In (f, TMsg m) (links (step s (ODelMsgs mids))).
+Proof.
+  intros s mids f m Hm Hin. cbn [step links] in Hin. unfold drop_target in Hin.
+  apply filter_In in Hin. destruct Hin as [_ Hk]. cbn [snd] in Hk.
+  apply memN_In in Hm. rewrite Hm in Hk. discriminate.
+Qed.
+
+Lemma del_topic_unlinks : forall s t f,
+  ~ In (f, TTopic t) (links (step s (ODelTopic t))) /\
+  (forall m, msg_topic m (msgs s) = Some t -> ~ In (f, TMsg m) (links (step s (ODelTopic t)))).
+Proof.
+  intros s t f. split.
+  - intros Hin. cbn [step links] in Hin. unfold drop_target in Hin.
+    apply filter_In in Hin. destruct Hin as [_ Hk]. cbn [snd] in Hk. rewrite N.eqb_refl in Hk. discriminate.
+  - intros m Hm Hin. cbn [step links] in Hin. unfold drop_target in Hin.
+    apply filter_In in Hin. destruct Hin as [_ Hk]. cbn [snd] in Hk. rewrite Hm, N.eqb_refl in Hk. discriminate.
+Qed.
+
+Lemma del_user_unlinks : forall s u f, ~ In (f, TUser u) (links (step s (ODelUser u))).
+Proof.
+  intros s u f Hin. cbn [step links] in Hin. unfold drop_target in Hin.
+  apply filter_In in Hin. destruct Hin as [_ Hk]. cbn [snd] in Hk. rewrite N.eqb_refl in Hk. discriminate.
+Qed.
+
+(* deletions touch no upload record and no stored bytes *)
+Lemma deletions_keep_files : forall s o,
+  match o with ODelMsgs _ | ODelTopic _ | ODelUser _ => True | _ => False end ->
+  files (step s o) = files s /\ disk (step s o) = disk s.
+Proof. intros s o H. destruct o; try destruct H; split; reflexivity. Qed.
+
+(* ---- an upload without a link row is collected by the next unlimited GC run past its time ---- *)
+Lemma unreferenced_collected : forall s f older limit,
+  inv_ids s -> In f (files s) -> linked (f_id f) (links s) = false -> gc_older_ok older f = true ->
+  (limit <= 0)%Z ->
+  ~ In (f_id f) (file_ids (step s (OGC older limit))) /\ ~ In (f_id f) (disk (step s (OGC older limit))).
+Proof.
+  intros s f older limit Hnd Hin Hl Ho Hlim.
+  destruct (gc_exact_step s older limit Hnd) as [_ [_ [_ [Hall _]]]].
+  assert (Hrem : In f (gc_removed s older limit)) by (apply Hall; assumption).
+  assert (Hm : memN (f_id f) (map f_id (gc_removed s older limit)) = true).
+  { apply memN_In. apply in_map. exact Hrem. }
+  split.
+  - unfold file_ids. cbn [step files]. intros H.
+    apply (in_map_filter file f_id (fun x => negb (memN x (map f_id (gc_removed s older limit))))) in H.
+    destruct H as [_ H]. rewrite Hm in H. discriminate.
+  - cbn [step disk]. intros H. apply filter_In in H. destruct H as [_ H]. rewrite Hm in H. discriminate.
+Qed.
+
+Lemma linked_true_In : forall f ls, linked f ls = true -> exists t, In (f, t) ls.
+Proof.
+  intros f ls H. unfold linked in H. apply existsb_exists in H. destruct H as [[g t] [Hin He]].
+  cbn [fst] in He. apply N.eqb_eq in He. subst g. exists t. exact Hin.
+Qed.
+
+Lemma find_file_snoc : forall l g id,
+  find_file id (l ++ [g]) =
+  match find_file id l with Some x => Some x | None => if (f_id g =? id)%N then Some g else None end.
+Proof.
+  intros l g id. unfold find_file. induction l as [|x l IH]; cbn [app find]; [reflexivity|].
+  destruct (f_id x =? id)%N; [reflexivity|exact IH].
+Qed.
+
+(* ---- the upload whose FinishUpload failed (500): exactly what is left ---- *)
+Lemma failed_upload_exact : forall s fid now mime,
+  inv s -> memN fid (file_ids s) = false -> fid <> 0%N ->
+  let s' := apply_effect s EResidueNoBytes fid now mime in
+  let rec := {| f_id := fid; f_done := false; f_upd := now; f_mime := mime |} in
+  files s' = files s ++ [rec] /\ disk s' = disk s /\ links s' = links s /\ msgs s' = msgs s /\
+  next_mid s' = next_mid s /\ topics s' = topics s /\ users s' = users s /\
+  (forall serve url, download s' serve url = download s serve url) /\
+  linked fid (links s') = false /\
+  (forall older limit, (limit <= 0)%Z -> gc_older_ok older rec = true ->
+     ~ In fid (file_ids (step s' (OGC older limit))) /\ ~ In fid (disk (step s' (OGC older limit)))).
+Proof.
+  intros s fid now mime Hinv Hfresh Hnz s' rec.
+  assert (Hinv' : inv s').
+  { subst s'. cbn [apply_effect]. apply inv_step. apply inv_step. exact Hinv. }
+  destruct Hinv as [Hids [[Hda Hdb] [_ [Hlinks _]]]].
+  assert (Hz : (fid =? 0)%N = false) by (apply N.eqb_neq; exact Hnz).
+  assert (Hstart : step s (OStart fid now mime) =
+    {| files := files s ++ [rec]; links := links s; msgs := msgs s; next_mid := next_mid s;
+       topics := topics s; users := users s; disk := fid :: disk s; att := att s |}).
+  { cbn [step]. rewrite Hfresh, Hz. reflexivity. }
+  assert (Hnd : is_done fid (files s ++ [rec]) = false).
+  { destruct (is_done fid (files s ++ [rec])) eqn:E; [|reflexivity].
+    apply (is_done_snoc_inv (files s) rec fid eq_refl) in E. apply is_done_in_ids in E.
+    apply memN_false in Hfresh. contradiction. }
+  assert (Hnotdisk : ~ In fid (disk s)).
+  { intros H. apply Hda in H. apply memN_false in Hfresh. contradiction. }
+  assert (Hs' : s' =
+    {| files := files s ++ [rec]; links := links s; msgs := msgs s; next_mid := next_mid s;
+       topics := topics s; users := users s; disk := disk s; att := att s |}).
+  { subst s'. cbn [apply_effect]. rewrite Hstart. cbn [step files]. rewrite Hnd.
+    cbn [files links msgs next_mid topics users att disk filter]. rewrite N.eqb_refl. cbn [negb].
+    rewrite filter_all; [reflexivity|].
+    intros x Hx. apply negb_true_iff. apply N.eqb_neq. intros ->. contradiction. }
+  assert (Hlk : linked fid (links s) = false).
+  { destruct (linked fid (links s)) eqn:E; [|reflexivity]. apply linked_true_In in E. destruct E as [t Ht].
+    apply Hlinks in Ht. destruct Ht as [Ht _]. apply memN_false in Hfresh. contradiction. }
+  rewrite Hs' in *. cbn [files disk links msgs next_mid topics users].
+  repeat (split; [reflexivity|]).
+  split.
+  { intros serve url. unfold download, download_with. cbn [files disk].
+    destruct (get_id_from_url serve url =? 0)%N; [reflexivity|].
+    rewrite find_file_snoc. destruct (find_file (get_id_from_url serve url) (files s)) as [x|]; [reflexivity|].
+    subst rec. cbn [f_id]. destruct (fid =? get_id_from_url serve url)%N; reflexivity. }
+  split; [exact Hlk|].
+  intros older limit Hlim Ho.
+  assert (Hin : In rec (files s ++ [rec])) by (apply in_app_iff; right; left; reflexivity).
+  destruct Hinv' as [Hids' _].
+  exact (unreferenced_collected _ rec older limit Hids' Hin Hlk Ho Hlim).
+Qed.
+
+(* a request answered with a status other than 200 that nevertheless left something behind *)
+Lemma failed_upload_request : forall h r fid now mime c e,
+  let s := run h in
+  upload_gate r = Reply c e -> c <> 200%Z -> e <> ENone ->
+  memN fid (file_ids s) = false -> fid <> 0%N ->
+  let s' := fst (apply_upload s r fid now mime) in
+  let rec := {| f_id := fid; f_done := false; f_upd := now; f_mime := mime |} in
+  c = 500%Z /\ u_fault r = FFinish /\
+  files s' = files s ++ [rec] /\ disk s' = disk s /\ links s' = links s /\ msgs s' = msgs s /\
+  next_mid s' = next_mid s /\ topics s' = topics s /\ users s' = users s /\
+  (forall serve url, download s' serve url = download s serve url) /\
+  linked fid (links s') = false /\
+  (forall older limit, (limit <= 0)%Z -> gc_older_ok older rec = true ->
+     ~ In fid (file_ids (step s' (OGC older limit))) /\ ~ In fid (disk (step s' (OGC older limit)))).
+Proof.
+  intros h r fid now mime c e s Hg Hc He Hfresh Hnz.
+  destruct (upload_refused_effect r c e Hg Hc) as [Hn|[He' [Hc' Hf]]]; [contradiction|].
+  subst e c. unfold apply_upload. cbn [fst]. rewrite Hg. cbn [effect_of].
+  split; [reflexivity|]. split; [exact Hf|].
+  exact (failed_upload_exact s fid now mime (inv_run h) Hfresh Hnz).
+Qed.
+
+Lemma unreferenced_collected_run : forall h f older limit,
+  let s := run h in
+  In f (files s) -> linked (f_id f) (links s) = false -> gc_older_ok older f = true -> (limit <= 0)%Z ->
+  ~ In (f_id f) (file_ids (step s (OGC older limit))) /\ ~ In (f_id f) (disk (step s (OGC older limit))).
+Proof.
+  intros h f older limit s H1 H2 H3 H4. destruct (inv_run h) as [Hids _].
+  exact (unreferenced_collected s f older limit Hids H1 H2 H3 H4).
+Qed.
+
+Lemma record_removed_only_by_run : forall h o f,
+  let s := run h in
+  In f (files s) -> ~ In (f_id f) (file_ids (step s o)) ->
+  (exists older limit, o = OGC older limit /\ In f (gc_removed s older limit) /\
+     linked (f_id f) (links s) = false /\ gc_older_ok older f = true) \/
+  (exists now, o = OFinish (f_id f) false now /\ f_done f = false).
+Proof.
+  intros h o f s H1 H2. destruct (inv_run h) as [Hids _].
+  destruct (record_removed_only_by s o f Hids H1 H2) as [[older [limit [Ho Hr]]]|H]; [left|right; exact H].
+  exists older, limit. split; [exact Ho|]. split; [exact Hr|].
+  destruct (gc_removed_sub s older limit f Hr) as [_ [Ha Hb]]. split; assumption.
+Qed.
+
+Lemma download_provenance : forall h serve url f,
+  download (run h) serve url = Some f ->
+  (exists t0, In (OStart (f_id f) t0 (f_mime f)) h) /\ In (OFinish (f_id f) true (f_upd f)) h.
+Proof.
+  intros h serve url f H. destruct (download_completed _ _ _ _ H) as [Hd [_ [_ [_ [Hin _]]]]].
+  destruct (file_provenance h f Hin) as [H1 H2]. split; [exact H1|exact (H2 Hd)].
+Qed.
+
+(* ---- the whole download request: gate and store slice together ---- *)
+Lemma serve_request_served : forall s r serve url o f,
+  serve_request s r serve url = (o, Some f) ->
+  o = Reply 200 EServed /\ s_meth r = MGet /\ first_some (s_keys r) = Some KValid /\
+  (exists u, auth_of (s_creds r) (s_sid r) = AuthUid u /\ u <> 0%N) /\
+  download s serve url = Some f /\
+  f_done f = true /\ In f (files s) /\ get_id_from_url serve url = f_id f /\ In (f_id f) (disk s).
+Proof.
+  intros s r serve url o f H. unfold serve_request in H.
+  remember (download s serve url) as d eqn:Ed.
+  set (r' := {| s_meth := s_meth r; s_keys := s_keys r; s_creds := s_creds r; s_sid := s_sid r;
+                s_handler := s_handler r; s_hdr := s_hdr r;
+                s_found := match d with Some _ => true | None => false end |}) in *.
+  injection H as Ho Hf.
+  destruct (effect_of (serve_gate r')) eqn:Ee; try discriminate.
+  assert (Hw : effect_of (serve_gate r') <> ENone) by (rewrite Ee; discriminate).
+  destruct (serve_gate_work r' Hw) as [Hm [Hk [Ha [_ [_ [_ Hg]]]]]].
+  split; [rewrite <- Ho; exact Hg|]. split; [exact Hm|]. split; [exact (key_check_source _ Hk)|]. split; [exact Ha|].
+  split; [exact Hf|]. rewrite Ed in Hf.
+  destruct (download_completed s serve url f Hf) as [H1 [_ [H3 [_ [H5 H6]]]]].
+  repeat split; assumption.
+Qed.
+
+Lemma serve_request_nothing : forall s r serve url o,
+  serve_request s r serve url = (o, None) -> effect_of o = ENone.
+Proof.
+  intros s r serve url o H. unfold serve_request in H.
+  remember (download s serve url) as d eqn:Ed.
+  set (r' := {| s_meth := s_meth r; s_keys := s_keys r; s_creds := s_creds r; s_sid := s_sid r;
+                s_handler := s_handler r; s_hdr := s_hdr r;
+                s_found := match d with Some _ => true | None => false end |}) in *.
+  injection H as Ho Hf. rewrite <- Ho.
+  destruct (effect_eq_none (effect_of (serve_gate r'))) as [He|He]; [exact He|]. exfalso.
+  destruct (serve_gate_work r' He) as [_ [_ [_ [_ [_ [Hfound Hg]]]]]].
+  rewrite Hg in Hf. cbn [effect_of] in Hf. subst r'. cbn [s_found] in Hfound.
+  destruct d; discriminate.
+Qed.
+
+(* ---- a completed upload that has a link row survives EVERY operation ---- *)
+Lemma linked_never_removed : forall h o f t,
+  let s := run h in
+  In (f, t) (links s) -> is_done f (files s) = true ->
+  In f (file_ids (step s o)) /\ In f (disk (step s o)).
+Proof.
+  intros h o f t s Hl Hd.
+  destruct (inv_run h) as [Hids [[_ Hdb] _]]. fold s in Hids, Hdb.
+  assert (Hlk : linked f (links s) = true) by (exact (linked_In f t (links s) Hl)).
+  unfold is_done in Hd. destruct (find_file f (files s)) as [g|] eqn:Eg; [|discriminate].
+  destruct (find_file_in _ _ _ Eg) as [Hg Hgid].
+  split.
+  - destruct (in_dec N.eq_dec f (file_ids (step s o))) as [H|H]; [exact H|]. exfalso.
+    rewrite <- Hgid in H.
+    destruct (record_removed_only_by s o g Hids Hg H) as [[older [limit [_ Hr]]]|[now [_ Hnd]]].
+    + destruct (gc_removed_sub s older limit g Hr) as [_ [Hn _]]. rewrite Hgid in Hn. congruence.
+    + congruence.
+  - assert (Hdisk : In f (disk s)) by (apply Hdb; unfold is_done; rewrite Eg; exact Hd).
+    destruct (in_dec N.eq_dec f (disk (step s o))) as [H|H]; [exact H|]. exfalso.
+    destruct (bytes_removed_only_by s o f Hdisk H) as [[older [limit [_ Hr]]]|[[now [_ Hnd]]|[_ Hnd]]].
+    + unfold gc_deleted_locations in Hr. apply in_map_iff in Hr. destruct Hr as [g' [Hid' Hr]].
+      destruct (gc_removed_sub s older limit g' Hr) as [_ [Hn _]]. rewrite Hid' in Hn. congruence.
+    + unfold is_done in Hnd. rewrite Eg in Hnd. congruence.
+    + unfold is_done in Hnd. rewrite Eg in Hnd. congruence.
+Qed.
+
+(* ---- end to end: a listed URL stays downloadable while the message exists ---- *)
+Lemma resolve_In : forall serve urls f,
+  In f (resolve serve urls) <-> f <> 0%N /\ exists u, In u urls /\ get_id_from_url serve u = f.
+Proof.
+  intros serve urls f. unfold resolve. rewrite filter_In, in_map_iff. split.
+  - intros [[u [Hu Hin]] Hnz]. split; [apply N.eqb_neq; apply negb_true_iff; exact Hnz|].
+    exists u. split; assumption.
+  - intros [Hnz [u [Hin Hu]]]. split; [exists u; split; assumption|].
+    apply negb_true_iff. apply N.eqb_neq. exact Hnz.
+Qed.
+
+Definition inv_nz (s : state) : Prop := forall f, In f (files s) -> f_id f <> 0%N.
+
+Lemma step_inv_nz : forall s o, inv_nz s -> inv_nz (step s o).
+Proof.
+  intros s o H f Hin. destruct o; cbn [step] in Hin.
+  - destruct (memN fid (file_ids s) || (fid =? 0)%N) eqn:E; [exact (H f Hin)|].
+    cbn [files] in Hin. apply in_app_iff in Hin. destruct Hin as [Hin|[Hin|[]]]; [exact (H f Hin)|].
+    subst f. cbn [f_id]. apply orb_false_iff in E. destruct E as [_ E]. apply N.eqb_neq. exact E.
+  - destruct (find_file fid (files s)) as [g|] eqn:Eg; [|exact (H f Hin)].
+    destruct (f_done g); [exact (H f Hin)|]. destruct ok.
+    + destruct (memN fid (disk s)); [|exact (H f Hin)].
+      unfold set_files in Hin. cbn [files] in Hin. apply in_map_iff in Hin. destruct Hin as [x [Hx Hin]].
+      destruct (f_id x =? fid)%N eqn:Ex; [|rewrite <- Hx; exact (H x Hin)].
+      apply N.eqb_eq in Ex. rewrite <- Hx. cbn [f_id]. rewrite <- Ex. exact (H x Hin).
+    + cbn [files] in Hin. apply filter_In in Hin. exact (H f (proj1 Hin)).
+  - destruct (memN t (topics s)); exact (H f Hin).
+  - destruct (memN u (users s)); exact (H f Hin).
+  - destruct (memN topic (topics s)); exact (H f Hin).
+  - rewrite link_single_files in Hin. exact (H f Hin).
+  - rewrite link_single_files in Hin. exact (H f Hin).
+  - exact (H f Hin).
+  - exact (H f Hin).
+  - exact (H f Hin).
+  - cbn [files] in Hin. apply filter_In in Hin. exact (H f (proj1 Hin)).
+  - destruct (is_done fid (files s)); exact (H f Hin).
+Qed.
+
+Lemma inv_nz_run : forall h, inv_nz (run h).
+Proof.
+  intros h. unfold run. assert (G : forall l s, inv_nz s -> inv_nz (fold_left step l s)).
+  { induction l as [|o l IH]; intros s Hs; [exact Hs|]. cbn [fold_left]. apply IH. apply step_inv_nz. exact Hs. }
+  apply G. intros f [].
+Qed.
+
+(* a completed upload whose bytes are present is served by every URL that yields its id *)
+Lemma download_of_done : forall s serve url,
+  get_id_from_url serve url <> 0%N -> is_done (get_id_from_url serve url) (files s) = true ->
+  In (get_id_from_url serve url) (disk s) ->
+  exists g, download s serve url = Some g /\ f_id g = get_id_from_url serve url /\ f_done g = true.
+Proof.
+  intros s serve url Hnz Hd Hdisk. unfold download, download_with.
+  apply N.eqb_neq in Hnz. rewrite Hnz. unfold is_done in Hd.
+  destruct (find_file (get_id_from_url serve url) (files s)) as [g|] eqn:Eg; [|discriminate].
+  apply memN_In in Hdisk. rewrite Hd, Hdisk. cbn [negb orb andb].
+  exists g. split; [reflexivity|]. split; [exact (proj2 (find_file_in _ _ _ Eg))|exact Hd].
+Qed.
+
+Lemma listed_url_linked : forall h1 serve topic urls h2 url,
+  let s1 := run h1 in
+  let fids := resolve serve urls in
+  memN topic (topics s1) = true ->
+  forallb (fun x => memN x (file_ids s1)) fids = true ->
+  In url urls -> is_done (get_id_from_url serve url) (files s1) = true ->
+  let mid := next_mid s1 in
+  let s2 := run (h1 ++ OPublish topic fids :: h2) in
+  target_live s2 (TMsg mid) = true ->
+  let f := get_id_from_url serve url in
+  In (f, TMsg mid) (links s2) /\ In f (file_ids s2) /\ In f (disk s2) /\
+  exists g, download s2 serve url = Some g /\ f_id g = f /\ f_done g = true.
+Proof.
+  intros h1 serve topic urls h2 url s1 fids Ht Hall Hin Hd mid s2 Hl. cbv zeta.
+  set (f := get_id_from_url serve url) in *.
+  assert (Hnz : f <> 0%N).
+  { unfold is_done in Hd. destruct (find_file f (files s1)) as [g|] eqn:Eg; [|discriminate].
+    destruct (find_file_in _ _ _ Eg) as [Hg Hid]. rewrite <- Hid. exact (inv_nz_run h1 g Hg). }
+  assert (Hf : In f fids).
+  { apply resolve_In. split; [exact Hnz|]. exists url. split; [exact Hin|reflexivity]. }
+  destruct (linked_msg h1 topic fids h2 f Ht Hall Hf Hd Hl) as [H1 [H2 [H3 H4]]].
+  split; [exact H1|]. split; [exact H2|]. split; [exact H3|].
+  exact (download_of_done s2 serve url Hnz H4 H3).
 Qed.
